@@ -41,6 +41,17 @@ pub fn run(cx: &mut Ctx) {
     }
     cx.exhaustive_blocks.push(format!("all pairs of keyed inputs of length <= {maxlen} over 2 keys x 4 join kinds x seq + par 1..3 ({n_ex} programs)"));
 
+    // every barrier kind inside the LEFT and inside the RIGHT side (exhaustive small scope), joins whose right side is
+    // not a fresh collection (another Pipeline, self-join, shared-prefix sides, a sibling second join), a dense
+    // stream of nested joins, and joins whose sides are split into 65..256 partitions
+    {
+        let xo = crate::pipe_x::XOpts::of(&o);
+        crate::pipe_injoin::injoin_block(cx, &crate::pipe_injoin::all_side_barriers(), 4, &xo);
+        crate::pipe_injoin::joinx_block(cx, &xo);
+        crate::pipe_injoin::nested_join_stream(cx, &xo);
+        crate::pipe_wide::wide_block(cx, &[crate::pipe_wide::WideKind::JoinSides, crate::pipe_wide::WideKind::JoinGbkSides], cx.budget(12, 60), &xo);
+    }
+
     // corpus: a side whose source is EMPTY but whose chain contains a global combine (one row even on empty
     // input), keyed afterwards — on either side, every kind
     for k in KINDS {
